@@ -4,7 +4,7 @@ from __future__ import annotations
 ID = "C09"
 BOUNDS = {
     "quick": "every DPTNumeric class of DPTBase.dpt_class_tree(); the value to encode is a symbolic integer over [value_min-3, value_max+3] (clipped to +-2^40): complete for integer-resolution types; for fractional-resolution and float-coded types these are the integer-valued inputs only, decided with exact IEEE-754 semantics under a budget of 45 s per class (cells exceeding it are inconclusive); 8-bit scaling types (5.001, 5.003) additionally with inputs k/10 for symbolic integer k (non-integer values around the range ends); DPT 14.*: integer inputs through to_knx (shape and acceptance only)",
-    "thorough": "as quick with 1200 s per class and additionally values k*resolution for symbolic integer k",
+    "thorough": "as quick with 240 s per class and additionally values k*resolution for symbolic integer k",
 }
 OUTSIDE = "non-integer inputs of fractional types in the quick tier; values beyond +-2^40; cells listed as inconclusive (solver budget) in the evidence"
 ASSUMPTIONS = [
